@@ -255,7 +255,7 @@ def observe_runtime(ck, items, mode, laws, tag, transform=None):
                           "rustc_failed_classes": len(failed)}
 
 
-def items_from_cfgs(cfgs, tier, traits_filter=None, entries=("attr", "derive"), rotate=False):
+def items_from_cfgs(cfgs, tier, traits_filter=None, entries=("attr", "derive"), rotate=False, pv=False):
     items = []
     for ci, c in enumerate(cfgs):
         D = c["D"]
@@ -269,6 +269,8 @@ def items_from_cfgs(cfgs, tier, traits_filter=None, entries=("attr", "derive"), 
         shp = cf.shapes(tier)
         if rotate:
             shp = [shp[ci % len(shp)]]          # quick tier: one shape per configuration, rotating
+        if pv and set(D) <= {"PartialEq", "PartialOrd"}:
+            shp = shp + cf.pv_shapes()
         for stag, build in shp:
             for entry in ents:
                 items.append((build(c["c"]), D, entry, stag, c["c"]))
@@ -294,7 +296,7 @@ def c01(tier):
     ck = dx.Check("C01", tier)
     cfgs, st = mc_cfgs(ck, tier)
     cmp_only = lambda D: "Hash" not in D
-    items = items_from_cfgs(cfgs, tier, cmp_only)
+    items = items_from_cfgs(cfgs, tier, cmp_only, pv=True)
     events, meta, stats = observe_runtime(ck, items, "distinct", False, "c01")
     n, bad, jst = dx.tlc_judge("Trace_Cmp", "Trace_Cmp.cfg", events, "c01", chunk=max(300, -(-len(events) // 12)))
     ck.add_judge(n, jst)
